@@ -66,6 +66,13 @@ def c06(tier, seed):
         S("MaizeGDD", "SandyLoam", seed=seed + 25, regime="hot", seasons=2, irr={"method": 4, "kw": {"NetIrrSMT": 60}}, iwc={"wc_type": "Pct", "value": [20]}),
         S("SugarBeet", "SiltClayLoam", seed=seed + 26, irr={"method": 3, "schedule": sched, "kw": {"MaxIrr": 35}}, seasons=2),
     ]
+    # the yield-formation productivity factor (WPy < 100) for determinate and indeterminate crops, built-in and by parameter override
+    for j, (crop, kw) in enumerate([("Cotton", None), ("DryBean", None), ("Quinoa", None), ("Soybean", None), ("Sunflower", None),
+                                    ("Tomato", {"WPy": 55}), ("Wheat", {"WPy": 70, "Determinant": 0}), ("Potato", {"WPy": 80})]):
+        if tier != "thorough" and j % 2 == (seed % 2) and j > 2:
+            continue
+        scs.append(S(crop, rnd.choice(["Loam", "SandyLoam", "SiltLoam"]), seed=seed + 60 + j, crop_kw=kw, regime="hot" if crop == "Cotton" else None,
+                     irr={"method": 1, "kw": {"SMT": [70] * 4}}))
     # crops that die DURING yield formation (good start, then a terminal drought of varying onset)
     for j, (crop, soil, onset) in enumerate([("Maize", "Sand", 62), ("Wheat", "LoamySand", 95), ("Sorghum", "Sand", 55), ("Barley", "Sand", 50),
                                             ("Maize", "LoamySand", 78), ("Tomato", "Sand", 60)]):
